@@ -189,9 +189,8 @@ def check_segwall(wall, off, swap, P, Q, stats, viol, exact=None):
         return
     if (p1.R, p1.Z, p2.R, p2.Z) != (p[0], p[1], q[0], q[1]) or not np.array_equal(arr0, eq.closed_wallarray):
         v("find_intersections | modifies its inputs")
+    # None and an empty array both mean "no point reported"
     rows = [] if res is None else [tuple(r) for r in np.asarray(res)]
-    if res is not None and len(rows) == 0:
-        v("find_intersections | returns an empty array instead of None")
 
     # wallIntersection
     wi_exc = None
